@@ -315,6 +315,39 @@ structure Cfg where
   env : Env
   brk : Nat → Bool                -- break decision of `_run_http_producer_turn` after the data batch of step `pos`
   chk : Bool                      -- `__iter__` checks `_finished` before following a token (Gen.C10.iterChecksFinishedAtToken)
+  lost : Nat → Bool := fun _ => false
+                                  -- the network: the response of POST attempt number `r` of the session (0 = the first
+                                  -- `/init` attempt) is lost AFTER the server handled the request; the client is answered
+                                  -- with a retryable gateway status (502/503/504) instead
+  retries : Option Nat := none    -- `HttpRetryConfig.max_retries` of the client; `none` = no retry config
+  retryCancel : Bool := false     -- `cancel()` sends its POST through `_post_with_retry` (Gen.C10.cancelRetried)
+
+/-- how a request ended for the client -/
+inductive Sent where
+  | ok                            -- an answer of the server arrived
+  | transient                     -- `_post_with_retry` ran out of attempts: HttpTransientError
+  | garbage                       -- the gateway's answer reached `_open_response_stream`: RpcError("HttpError")
+deriving Repr, DecidableEq
+
+/-- `_request_with_retry`: attempts made for a request whose first attempt is POST number `r`, with `n` retries left, and
+whether the last one was answered -/
+def attempts (lost : Nat → Bool) : Nat → Nat → Nat × Bool
+  | 0, r => (1, !lost r)
+  | n + 1, r => if lost r then ((attempts lost n (r + 1)).1 + 1, (attempts lost n (r + 1)).2) else (1, true)
+
+/-- one logical request: `_post_with_retry(config)` where the call site uses it (`retrying`) and a retry config exists,
+a bare `client.post` otherwise.  Returns the number of POSTs the server handled and the outcome. -/
+def post (c : Cfg) (retrying : Bool) (r : Nat) : Nat × Sent :=
+  match (if retrying then c.retries else none) with
+  | none => (1, if c.lost r then .garbage else .ok)
+  | some n => ((attempts c.lost n r).1, if (attempts c.lost n r).2 then .ok else .transient)
+
+/-- the stateless server does the same thing for every attempt -/
+def rep (n : Nat) (l : List SEv) : List SEv := (List.replicate n l).flatten
+
+def failEv : Sent → Ev
+  | .transient => .error "HttpTransientError".toList [] none      -- message text not modelled
+  | _ => .error "HttpError".toList [] none
 
 def refusedEv : Ev := .error Gen.C10.httpRefuseType.toList Gen.C10.httpRefuseMsg.toList none
 
@@ -349,20 +382,27 @@ def readX : List Item → List Ev × Bool
   | .err e :: _ => ([errEv e], false)
   | .token _ :: r => readX r
 
-/-- `exchange(input)` -/
+/-- `exchange(input)` — deliberately a bare `client.post` (not retried: `process()` may have side effects) -/
 def send (c : Cfg) (p : Prog) (s : St) (b : IBatch) : St × List Ev :=
   match s.tok with
   | none => (s, [refusedEv])
   | some pos =>
-    match readX (serve c p pos b).1 with
-    | (evs, true) =>
-      ({ s with slog := s.slog ++ (serve c p pos b).2, reqs := s.reqs + 1,
-                tok := if p.isProducer then s.tok else some (pos + 1) }, evs)
-    | (evs, false) =>
-      ({ s with slog := s.slog ++ (serve c p pos b).2, reqs := s.reqs + 1 },
-       match evs.getLast? with
-       | some (.error ..) => evs
-       | _ => evs ++ [.fin])              -- `_read_batch_with_log_check` met the end of the body: StopIteration
+    match (post c false s.reqs).2 with
+    | .ok =>
+      (match readX (serve c p pos b).1 with
+       | (evs, true) =>
+         ({ s with slog := s.slog ++ rep (post c false s.reqs).1 (serve c p pos b).2,
+                   reqs := s.reqs + (post c false s.reqs).1,
+                   tok := if p.isProducer then s.tok else some (pos + 1) }, evs)
+       | (evs, false) =>
+         ({ s with slog := s.slog ++ rep (post c false s.reqs).1 (serve c p pos b).2,
+                   reqs := s.reqs + (post c false s.reqs).1 },
+          match evs.getLast? with
+          | some (.error ..) => evs
+          | _ => evs ++ [.fin]))            -- `_read_batch_with_log_check` met the end of the body: StopIteration
+    | o =>                                  -- the server ran `process`; the client keeps its old token
+      ({ s with slog := s.slog ++ rep (post c false s.reqs).1 (serve c p pos b).2,
+                reqs := s.reqs + (post c false s.reqs).1 }, [failEv o])
 
 /-- the generator running inside its `while True` loop over a response body -/
 def pull (c : Cfg) (p : Prog) : Nat → St → List Item → St × List Ev × Bool
@@ -374,7 +414,15 @@ def pull (c : Cfg) (p : Prog) : Nat → St → List Item → St × List Ev × Bo
   | f + 1, s, .token pos :: _ =>
     if c.chk && s.finished then ({ s with gen := .dead }, [.fin], false)
     else
-      pull c p f { s with slog := s.slog ++ (serve c p pos tickBatch).2, reqs := s.reqs + 1 } (serve c p pos tickBatch).1
+      match (post c true s.reqs).2 with                            -- `_send_continuation`: retried
+      | .ok =>
+        pull c p f { s with slog := s.slog ++ rep (post c true s.reqs).1 (serve c p pos tickBatch).2,
+                            reqs := s.reqs + (post c true s.reqs).1 }
+          (serve c p pos tickBatch).1
+      | o =>
+        ({ s with slog := s.slog ++ rep (post c true s.reqs).1 (serve c p pos tickBatch).2,
+                  reqs := s.reqs + (post c true s.reqs).1, gen := .dead },
+         [failEv o], false)
 
 def fuel (p : Prog) : Nat := p.steps.length + 2
 
@@ -388,8 +436,15 @@ def afterPendingEnd (c : Cfg) (p : Prog) (s : St) : St × List Ev × Bool :=
       match s.tok with
       | none => ({ s with pend := [], gen := .dead }, [.fin], false)
       | some pos =>
-        pull c p (fuel p) { s with pend := [], slog := s.slog ++ (serve c p pos tickBatch).2, reqs := s.reqs + 1 }
-          (serve c p pos tickBatch).1
+        match (post c true s.reqs).2 with
+        | .ok =>
+          pull c p (fuel p)
+            { s with pend := [], slog := s.slog ++ rep (post c true s.reqs).1 (serve c p pos tickBatch).2,
+                     reqs := s.reqs + (post c true s.reqs).1 }
+            (serve c p pos tickBatch).1
+        | o =>
+          ({ s with pend := [], slog := s.slog ++ rep (post c true s.reqs).1 (serve c p pos tickBatch).2,
+                    reqs := s.reqs + (post c true s.reqs).1, gen := .dead }, [failEv o], false)
 
 /-- the generator at / after `yield from self._pending_batches` with `j` batches handed out -/
 def afterPending (c : Cfg) (p : Prog) (s : St) (j : Nat) : St × List Ev × Bool :=
@@ -405,11 +460,14 @@ def next (c : Cfg) (p : Prog) (s : St) : St × List Ev × Bool :=
   | .pending j => afterPending c p s j
   | .reader items => pull c p (fuel p) s items
 
-/-- `cancel()` against the cancel branch of `_run_stream_exchange_sync` -/
-def cancel (s : St) : St × List Ev :=
+/-- `cancel()` against the cancel branch of `_run_stream_exchange_sync`: every attempt that reaches the server runs
+`on_cancel`; whatever the answer, the client swallows it -/
+def cancel (c : Cfg) (s : St) : St × List Ev :=
   match s.finished, s.tok with
   | false, some pos =>
-    ({ s with finished := true, tok := none, slog := s.slog ++ [.onCancel pos], reqs := s.reqs + 1 }, [])
+    ({ s with finished := true, tok := none,
+              slog := s.slog ++ rep (post c c.retryCancel s.reqs).1 [.onCancel pos],
+              reqs := s.reqs + (post c c.retryCancel s.reqs).1 }, [])
   | _, _ => ({ s with finished := true, tok := none }, [])
 
 inductive Op where
@@ -420,7 +478,7 @@ def step (c : Cfg) (p : Prog) (s : St) : Op → St × List Ev
   | .next => let (s', e, _) := next c p s; (s', e)
   | .send b => send c p s b
   | .close => (s, [])                       -- `close()` is a no-op over HTTP
-  | .cancel => cancel s
+  | .cancel => cancel c s
 
 def run (c : Cfg) (p : Prog) : St → List Op → St × List (List Ev)
   | s, [] => (s, [])
@@ -452,16 +510,19 @@ def openEvs (m : Method) (pr : Http.InitParse) : List Ev :=
 
 def session (c : Cfg) (m : Method) (pr : Http.InitParse) : St :=
   { pend := pr.pending, perr := pr.err, finished := pr.cursor.isNone, tok := pr.cursor, gen := .fresh,
-    slog := (initBody c m).2, reqs := 1 }
+    slog := rep (post c true 0).1 (initBody c m).2, reqs := (post c true 0).1 }
 
-/-- `_make_stream_caller` + `_init_http_stream_session` -/
+/-- `_make_stream_caller` (the `/init` POST is retried) + `_init_http_stream_session` -/
 def openS (c : Cfg) (m : Method) : List Ev × Option St :=
-  match m.init with
-  | some e => (lgEv m.initLogs ++ [errEv e], none)            -- the sink's logs precede the error in the error stream
-  | none =>
-    match (Http.parseInit (initBody c m).1).err, (Http.parseInit (initBody c m).1).pending, m.header with
-    | some e, [], none => ((Http.parseInit (initBody c m).1).evs ++ [e], none)   -- nothing delivered yet: raised at open
-    | _, _, _ => (openEvs m (Http.parseInit (initBody c m).1), some (session c m (Http.parseInit (initBody c m).1)))
+  match (post c true 0).2 with
+  | .ok =>
+    (match m.init with
+     | some e => (lgEv m.initLogs ++ [errEv e], none)          -- the sink's logs precede the error in the error stream
+     | none =>
+       match (Http.parseInit (initBody c m).1).err, (Http.parseInit (initBody c m).1).pending, m.header with
+       | some e, [], none => ((Http.parseInit (initBody c m).1).evs ++ [e], none)  -- nothing delivered yet: raised at open
+       | _, _, _ => (openEvs m (Http.parseInit (initBody c m).1), some (session c m (Http.parseInit (initBody c m).1))))
+  | o => ([failEv o], none)
 
 /-- open a stream and iterate it to its end (`for b in session`): enough `next`s for every buffered batch and every step -/
 def openIterate (c : Cfg) (m : Method) : List Ev :=
